@@ -53,6 +53,17 @@ def mismatch(exp, r):
     for i, (g, w) in enumerate(zip(got, want)):
         if w is not None and not (g == w or (w == '<StringLiteral' and g.startswith(w))):
             return 'token %d: expected %s, got %s' % (i, w, g)
+    # byte span and line of every token (the second-generation lexer counts bytes; expected offsets are converted)
+    src = r.get('_source')
+    locs = [x for x in (r['result'].get('locs') or '').split('|') if x]
+    if src is not None and len(locs) == len(want):
+        for i, ((cs, ce, ln, d), loc) in enumerate(zip(exp, locs)):
+            if d is not None and d.startswith('?'):
+                continue
+            bs, be = len(src[:cs].encode('utf-8')), len(src[:ce].encode('utf-8'))
+            gs, ge, gl, _gc = (int(x) for x in loc.split('-'))
+            if (gs, ge, gl) != (bs, be, ln):
+                return 'token %d (%s): expected bytes %d..%d on line %d, got %d..%d on line %d' % (i, want[i], bs, be, ln, gs, ge, gl)
     has_err = any(d and 'err:' in d for (_s, _e, _l, d) in exp)
     codes = r['result'].get('errors', '[]')
     if has_err != (codes != '[]'):
@@ -70,7 +81,8 @@ def invalid_lexeme_cases(rng):
         out.append(('var x = "a%sb";' % c, 'control character 0x%02x inside a string literal' % ord(c)))
         out.append(("var x = '%s';" % c, 'control character 0x%02x as a character literal' % ord(c)))
         out.append(('var %sx = 1;' % c, 'control character 0x%02x between tokens' % ord(c)))
-    for bad in ('"\\q"', '"\\x4"', '"\\xg0"', '"\\u{110000}"', '"\\u{d800}"', "''", "'ab'", '"abc', "'a", '0x', '0b', '12abc', '1u7', '0xffzz', '@', '$', '`', '#'):
+    for bad in ('"\\q"', '"\\x4"', '"\\xg0"', '"\\u{110000}"', '"\\u{d800}"', "''", "'ab'", '"abc', "'a", '0x', '0b', '12abc', '1u7', '0xffzz', '@', '$', '`', '#',
+                '"\\u{41"', "'\\u{41'", '"\\u{20ac x"', '"\\u41"', '1bool', '65char8', '0void', '0b1bool', '0x1void', '1i63', '1u', '1I32', '1f32', '1usiz', '1i1288'):
         out.append(('var x = %s;' % bad, 'invalid lexeme %s' % bad))
     return out
 
@@ -83,7 +95,9 @@ def search(deadline, rng, newline='\n', only_invalid=False):
     def one(case):
         src, exp = case
         r = replayrun.run('deltatok', src.encode('utf-8'), timeout=20)
+        r['_source'] = src
         m = mismatch(exp, r)
+        r.pop('_source', None)
         return (src, exp, r, m) if m else None
 
     def inv(case):
